@@ -12,7 +12,7 @@ with the real compiler's bytecode dump of the printed program; (c) the vm stream
 """
 import re
 
-from lib.common import Run, hx, go_child, lean_child
+from lib.common import Run, hx, unhx, go_child, lean_child
 from lib.astgen import AstGen, Printer, Sexp
 
 CANON_F = re.compile(r"F[0-9a-f-]*\([0-9a-f,-]*\)[0-9a-f-]*")
@@ -325,6 +325,45 @@ def main(tier):
                 run.violation("correspondence:compile", {"stream": "compile", "source": txt, "implementation": a[:500], "model": b[:500]})
         if texts:
             run.sample({"stream": "compile", "source": texts[0], "code": md[0][:200]})
+        # ---- the text of a float value (toStr, template holes, printing inside containers) is its shortest round-trip decimal in
+        #      positional notation — for whole-valued floats beyond 2^53, negative zero and tiny fractions too.  Expected text: from the
+        #      value's own bits (read from a separate run of the expression), by Python's shortest repr written out positionally
+        import struct as _st
+        from decimal import Decimal as _D
+
+        def ftext(bits):
+            f = _st.unpack(">d", _st.pack(">Q", bits))[0]
+            if f != f:
+                return "NaN"
+            if f in (float("inf"), float("-inf")):
+                return "+Inf" if f > 0 else "-Inf"
+            t = format(_D(repr(f)), "f")
+            if "." in t:
+                t = t.rstrip("0").rstrip(".")
+            return t
+        fexprs = ["2.0**62", "2.0**64", "10.0**19", "2.0**53 + 1.0", "9007199254740993 * 1.0", "1.0 / 3", "0.1 + 0.2", "1.5", "3.0", "6.0 / 2", "0.0 * (0 - 1.0)",
+                  "1.0 / 1000000", "123456789012345678 * 10.0", "0.000001 * 0.001", "2.0 ** 80", "(0 - 2.0) ** 63", "4611686018427387904 * 2.0", "1e0 + 1" if False else "7.25 * 4"]
+        for _ in range(60 if tier == "thorough" else 25):
+            a, b = r.choice((2.0, 3.0, 10.0, 1.5, 7.0, 0.5)), r.randint(1, 90)
+            fexprs.append(r.choice((f"{a} ** {b}", f"{r.randint(1, 10**18)} * {r.choice((1.0, 2.0, 0.5, 10.0))}", f"{r.randint(1, 10**6)}.0 / {r.randint(1, 999)}",
+                                    f"(0 - {a}) ** {b}", f"{r.randint(1, 10**15)}.{r.randint(0, 999)} * {r.choice((1.0, 1000.0, 1000000.0))}")))
+        fl = []
+        for e in fexprs:
+            fl += [f"runseq -,L30000 {1:032x} {hx(e)}", f"runseq -,L30000 {1:032x} {hx('toStr(' + e + ')')}", f"runseq -,L30000 {1:032x} {hx('`<{' + e + '}>`')}",
+                   f"runseq -,L30000 {1:032x} {hx('toStr([' + e + '])')}"]
+        fo = run.go_only("float-text", fl, go_timeout=120)
+        for i, e in enumerate(fexprs):
+            v = re.match(r"ok f([0-9a-f]+) ", fo[4 * i][1])
+            if not v:
+                run.count("float-text.not-a-float")
+                continue
+            want = ftext(int(v.group(1), 16))
+            got = [re.match(r"ok s([0-9a-f]*) ", fo[4 * i + j][1]) for j in (1, 2, 3)]
+            texts3 = [unhx(g_.group(1)).decode("utf-8", "replace") if g_ else None for g_ in got]
+            run.nontriv(("float-text", e))
+            if texts3 != [want, "<" + want + ">", "[" + want + "]"]:
+                run.violation("float-text:not-the-shortest-positional-decimal-of-the-value", {"expression": e, "value_bits": v.group(1), "expected_text": want,
+                              "toStr / template hole / inside a list": texts3})
     return run.finish(
         trusted=["Lean 4.33 kernel", "axioms: propext, Classical.choice, Quot.sound", "Go harness + Lean driver + the Python printer (the statement of the grammar's precedence levels)",
                  "primitive operator tables / indexing / scopes are shared between the definitional semantics and the VM model (they are C01's and the vm stream's subject); "
